@@ -94,12 +94,16 @@ MODS = {"hnsw_backend.rs": "hnsw_backend_proofs.rs", "hnsw_index.rs": "hnsw_inde
 from props.C01 import prepare_persistence_overlay  # noqa: E402  (cfg(kani) file-system model for persistence.rs)
 
 FPS = [("persistence.rs", "append_internal_with_rollback"), ("persistence.rs", "rollback_to_stable_state"), ("persistence.rs", "rollback_to_offset"), ("persistence.rs", "write_entry"), ("persistence.rs", "perform_fsync")]
+PA3 = ["file-system model crate::verif_fs", "model checksum instead of crc32fast::hash", "FsyncPolicy::Always", "entries with empty embedding/metadata (52-byte frame)"]
 PERSIST_HARNESSES = [
-    KH("O3.4/failed_append", "c03_o4_failed_append_rollback", "append_internal_with_rollback over the file model with a symbolic fault (frame write stops after any j < 52 bytes and fails, or the fsync fails; "
-       "the rollback's own set_len/seek may fail): acknowledged iff no fault; acknowledged => one new durable well-formed frame; failed + rollback ok => file, counters and the earlier frame exactly as before, "
-       "and a retry yields a clean two-frame log",
-       src="persistence.rs", functions=FPS, bounds="one good frame on disk, then one append with a symbolic fault plan; entries with arbitrary op/doc_id/seq_no/timestamp and empty payload; file capacity 128 bytes; unwind 50",
-       assumptions=["file-system model crate::verif_fs", "model checksum instead of crc32fast::hash", "FsyncPolicy::Always"], timeout=1500, replay="solver-only"),
+    KH("O3.4/short_write", "c03_o4_short_write_rolled_back", "append_internal_with_rollback: the frame write stops after any j < 52 bytes and fails => Err, file truncated to the last good offset, counters restored, earlier frame untouched",
+       src="persistence.rs", functions=FPS, bounds="one good frame on disk; second append with the write cut at a symbolic byte j in 0..51; symbolic entries", assumptions=PA3, timeout=1500, replay="solver-only"),
+    KH("O3.4/failed_fsync", "c03_o4_failed_fsync_rolled_back", "append_internal_with_rollback: frame fully written but the fsync fails => Err and the same restoration",
+       src="persistence.rs", functions=FPS, bounds="one good frame; second append whose sync_all fails", assumptions=PA3, timeout=1500, replay="solver-only", tier="thorough"),
+    KH("O3.4/rollback_fails", "c03_o4_rollback_failure_surfaces", "append_internal_with_rollback: when the rollback's own set_len or seek fails the call still returns Err (never acknowledged)",
+       src="persistence.rs", functions=FPS, bounds="write cut after 10 bytes; set_len or seek of the rollback fails (symbolic choice)", assumptions=PA3, timeout=1500, replay="solver-only", tier="thorough"),
+    KH("O3.4/retry", "c03_o4_retry_after_rollback", "after a rolled-back short write a fault-free retry yields exactly two well-formed durable frames",
+       src="persistence.rs", functions=FPS, bounds="write cut after 10 bytes, then a clean retry", assumptions=PA3, timeout=1500, replay="solver-only", tier="thorough"),
 ]
 
 
